@@ -517,8 +517,43 @@ func (e *ownEngine) summary(fn *ssa.Function, obj string) *ownSummary {
 // loopColl recognises `for i := 0; i < len(S); i++ { e := S[i] ... }` loops over a collection
 // value and returns collection key -> 1 when the loop covers the full range (the per-element
 // obligation is checked on the loop-body paths).
+// consumesAll: g ranges over its slice-of-requests parameter k with a full counted loop (each element is an
+// obligated child inside g, so a skipped or doubly completed element is reported there).
+func (e *ownEngine) consumesAll(g *ssa.Function, k int) bool {
+	if g == nil || g.Blocks == nil || k >= len(g.Params) {
+		return false
+	}
+	prm := g.Params[k]
+	for _, h := range loopHeaders(g) {
+		ls, _ := findCountedLoop(h)
+		if ls == nil || !ls.initOK {
+			continue
+		}
+		if isLenOf(ls.bound, prm) {
+			return true
+		}
+	}
+	return false
+}
+
 func (e *ownEngine) loopColls(fn *ssa.Function) map[string]int {
 	out := map[string]int{}
+	eachInstr(fn, func(_ *ssa.BasicBlock, _ int, in ssa.Instruction) {
+		call, ok := in.(*ssa.Call)
+		if !ok {
+			return
+		}
+		g := calleeFn(call.Common())
+		if g == nil || !isModFn(g) {
+			return
+		}
+		for i, a := range call.Call.Args {
+			if sl, ok := a.Type().Underlying().(*types.Slice); ok && isReqType(sl.Elem()) && e.consumesAll(g, i) {
+				e.analyse(g)
+				out["coll:"+e.baseKey(a)] = 1
+			}
+		}
+	})
 	for _, h := range loopHeaders(fn) {
 		ls, _ := findCountedLoop(h)
 		if ls == nil || !ls.initOK {
@@ -812,7 +847,7 @@ func (e *ownEngine) step(fn *ssa.Function, in ssa.Instruction, s *pstate) []*pst
 			// element of a local collection of children (result of a Split-style call)
 			if ia, ok := x.X.(*ssa.IndexAddr); ok {
 				switch ia.X.(type) {
-				case *ssa.Call, *ssa.Extract:
+				case *ssa.Call, *ssa.Extract, *ssa.Parameter:
 					o := e.objKey(x)
 					if !s.known[o] {
 						s.known[o] = true
